@@ -106,7 +106,10 @@ class Asn1Type(Asn1Item):
         """
         return (self is other or
                 (not matchTags or self.tagSet == other.tagSet) and
-                (not matchConstraints or self.subtypeSpec == other.subtypeSpec))
+                (not matchConstraints or
+                 # `==` alone ignores the constraint classes, the hash does not
+                 hash(self.subtypeSpec) == hash(other.subtypeSpec) and
+                 self.subtypeSpec == other.subtypeSpec))
 
     def isSuperTypeOf(self, other, matchTags=True, matchConstraints=True):
         """Examine |ASN.1| type for subtype relationship with other ASN.1 type.
